@@ -363,47 +363,31 @@ theorem zeroBytesG_iff {b r : Bytes} {n : Nat} {nz : Bool} :
     rw [map_ok_iff]
     exact ⟨pad, take_append hl, rfl⟩
 
-/-- The trailing user agent: present and valid, or the reader ran dry inside it. -/
+/-- The trailing user agent: present and valid, or nothing at all follows the nonce. -/
 theorem agentOrDefault_iff {b r : Bytes} {ua : Bytes} {dflt : Bool} :
     agentOrDefault b = .ok (ua, dflt) r ↔
       (dflt = false ∧ agentOk ua = true ∧ b = encStr ua ++ r) ∨
-      (dflt = true ∧ ua = defaultAgent ∧ r = [] ∧ agent b = .incomplete) := by
+      (dflt = true ∧ ua = defaultAgent ∧ r = [] ∧ b = []) := by
   unfold agentOrDefault
-  cases h : agent b with
-  | ok a r1 =>
-    obtain ⟨hw, rfl⟩ := agent_exact.can h
-    simp only [Res.ok.injEq, Prod.mk.injEq, reduceCtorEq, and_false, or_false]
-    constructor
-    · rintro ⟨⟨rfl, rfl⟩, rfl⟩
-      exact ⟨rfl, hw, rfl⟩
-    · rintro ⟨rfl, hw', heq⟩
-      have := agent_exact.rt hw' r
-      rw [← heq, h] at this
-      simp only [Res.ok.injEq] at this
-      exact ⟨⟨this.1, rfl⟩, this.2⟩
-  | incomplete =>
+  cases b with
+  | nil =>
     simp only [Res.ok.injEq, Prod.mk.injEq, and_true]
     constructor
     · rintro ⟨⟨rfl, rfl⟩, rfl⟩
       exact Or.inr ⟨rfl, rfl, rfl⟩
-    · rintro (⟨rfl, hw, rfl⟩ | ⟨rfl, rfl, rfl⟩)
-      · have := agent_exact.rt hw r
-        rw [h] at this; cases this
+    · rintro (⟨_, _, h⟩ | ⟨rfl, rfl, rfl⟩)
+      · simp [encStr, beEnc] at h
       · exact ⟨⟨rfl, rfl⟩, rfl⟩
-  | invalid =>
-    simp only [reduceCtorEq, false_iff, not_or, not_and]
+  | cons x xs =>
+    simp only [reduceCtorEq, and_false, or_false]
+    rw [agent_exact.map_iff]
     constructor
-    · rintro rfl hw rfl
-      have := agent_exact.rt hw r
-      rw [h] at this; cases this
-    · rintro rfl rfl rfl; simp
-  | panic s =>
-    simp only [reduceCtorEq, false_iff, not_or, not_and]
-    constructor
-    · rintro rfl hw rfl
-      have := agent_exact.rt hw r
-      rw [h] at this; cases this
-    · rintro rfl rfl rfl; simp
+    · rintro ⟨a, ha, hb, hx⟩
+      simp only [Prod.mk.injEq] at hx
+      obtain ⟨rfl, rfl⟩ := hx
+      exact ⟨rfl, ha, hb⟩
+    · rintro ⟨rfl, ha, hb⟩
+      exact ⟨ua, ha, hb, rfl⟩
 
 /-! ## Message bodies -/
 
@@ -523,7 +507,7 @@ theorem nodeAnnBody_iff (env : Env) {b r : Bytes} {x : Msg × Ghost} :
         x = (.nodeAnn node sig v feat ts al addrs nonce ua, { agentDefaulted := dflt }) ∧
         b = nodeAnnHead node sig v feat ts al addrs nonce ++ tail ∧
         ((dflt = false ∧ agentOk ua = true ∧ tail = encStr ua ++ r) ∨
-         (dflt = true ∧ ua = defaultAgent ∧ r = [] ∧ agent tail = .incomplete)) := by
+         (dflt = true ∧ ua = defaultAgent ∧ r = [] ∧ tail = [])) := by
   simp only [nodeAnnBody, pubkey_exact.bind_iff, signature_exact.bind_iff, u8_exact.bind_iff,
     u64_exact.bind_iff, timestamp_exact.bind_iff, alias_exact.bind_iff, (addrVec_exact env).bind_iff]
   constructor
@@ -604,10 +588,9 @@ theorem decodeMsgG_cases (env : Env) {b r : Bytes} {m : Msg} {g : Ghost}
       g = { padNonZero := pad.any (· ≠ 0) } ∧ b = encU16 10 ++ (encU16 p ++ (encU16 pad.length ++ (pad ++ r)))) ∨
     (∃ pad : Bytes, pad.length < 65536 ∧ m = .pong pad.length ∧
       g = { padNonZero := pad.any (· ≠ 0) } ∧ b = encU16 12 ++ (encU16 pad.length ++ (pad ++ r))) ∨
-    (∃ node sig v feat ts al addrs nonce tail,
+    (∃ node sig v feat ts al addrs nonce,
       m = .nodeAnn node sig v feat ts al addrs nonce defaultAgent ∧ g = { agentDefaulted := true } ∧
-      r = [] ∧ agent tail = .incomplete ∧
-      b = encU16 2 ++ (nodeAnnHead node sig v feat ts al addrs nonce ++ tail)) := by
+      r = [] ∧ b = encU16 2 ++ nodeAnnHead node sig v feat ts al addrs nonce) := by
   unfold decodeMsgG at h
   rw [u16_exact.bind_iff] at h
   obtain ⟨ty, hty, b', rfl, h⟩ := h
@@ -622,9 +605,9 @@ theorem decodeMsgG_cases (env : Env) {b r : Bytes} {m : Msg} {g : Ghost}
     obtain ⟨node, sig, v, feat, ts, al, addrs, nonce, ua, dflt, tail, _, hx, rfl, hag⟩ :=
       (nodeAnnBody_iff env).mp h
     cases hx
-    rcases hag with ⟨rfl, _, rfl⟩ | ⟨rfl, rfl, rfl, hinc⟩
+    rcases hag with ⟨rfl, _, rfl⟩ | ⟨rfl, rfl, rfl, rfl⟩
     · exact Or.inl ⟨rfl, by simp [Msg.encode, Msg.typeId, Msg.encodeBody, nodeAnnHead]⟩
-    · exact Or.inr (Or.inr (Or.inr ⟨node, sig, v, feat, ts, al, addrs, nonce, tail, rfl, rfl, rfl, hinc, rfl⟩))
+    · exact Or.inr (Or.inr (Or.inr ⟨node, sig, v, feat, ts, al, addrs, nonce, rfl, rfl, rfl, by simp⟩))
   split at h
   · rename_i _ _ h1; subst h1
     obtain ⟨node, sig, inv, ts, _, hx, rfl⟩ := invAnnBody_iff.mp h
@@ -657,7 +640,7 @@ defaulted) if and only if the input is the encoding of the decoded message follo
 theorem decodeMsgG_canonical_iff (env : Env) {b r : Bytes} {m : Msg} {g : Ghost}
     (h : decodeMsgG env b = .ok (m, g) r) : g.clean = true ↔ b = m.encode ++ r := by
   rcases decodeMsgG_cases env h with ⟨rfl, hb⟩ | ⟨p, pad, hl, rfl, rfl, rfl⟩ | ⟨pad, hl, rfl, rfl, rfl⟩ |
-    ⟨node, sig, v, feat, ts, al, addrs, nonce, tail, rfl, rfl, rfl, hinc, rfl⟩
+    ⟨node, sig, v, feat, ts, al, addrs, nonce, rfl, rfl, rfl, rfl⟩
   · simp [Ghost.clean, hb]
   · simp only [Ghost.clean, Bool.not_false, Bool.and_true, Bool.not_eq_true']
     constructor
@@ -681,11 +664,8 @@ theorem decodeMsgG_canonical_iff (env : Env) {b r : Bytes} {m : Msg} {g : Ghost}
       rw [this]; exact any_ne_zero_replicate _
   · simp only [Ghost.clean, Bool.not_true, Bool.and_false, Bool.false_eq_true, false_iff]
     intro hb
-    simp only [Msg.encode, Msg.typeId, Msg.encodeBody, nodeAnnHead, List.append_assoc,
-      List.append_cancel_left_eq, List.append_nil] at hb
-    have := agent_exact.rt agentOk_default []
-    rw [List.append_nil, ← hb, hinc] at this
-    cases this
+    have hl := congrArg List.length hb
+    simp [Msg.encode, Msg.typeId, Msg.encodeBody, nodeAnnHead, encStr, defaultAgent, length_beEnc] at hl
 
 /-! ## Size -/
 
@@ -884,9 +864,9 @@ theorem zeroBytesG_no_panic : NoPanic zeroBytesG := (NoPanic.beNat 2).bind fun n
 theorem agentOrDefault_no_panic : NoPanic agentOrDefault := by
   intro b s
   unfold agentOrDefault
-  cases h : agent b with
-  | panic s' => exact absurd h (agent_no_panic b s')
-  | _ => simp
+  cases b with
+  | nil => simp
+  | cons x xs => exact (agent_no_panic.map _) _ s
 
 theorem bodyOf_no_panic (env : Env) (ty : Nat) : NoPanic (bodyOf env ty) := by
   unfold bodyOf
